@@ -126,7 +126,7 @@ pub fn base_yaml(bits: u32, servers: u8) -> String {
     s.push_str("  version: 1.2.3\n");
     match servers {
         0 => {}
-        1 => s.push_str("servers:\n- url: https://api.example.com/v1\n  description: production\n"),
+        1 => s.push_str("servers:\n- url: https://api.example.com/v1/\n  description: production\n"),
         _ => s.push_str(
             "servers:\n- url: https://api.example.com/v1\n  description: production\n- url: https://{env}.example.com:{port}/v2\n  variables:\n    env:\n      default: dev\n      enum:\n      - dev\n      - staging\n      description: environment\n    port:\n      default: '8443'\n",
         ),
@@ -135,7 +135,7 @@ pub fn base_yaml(bits: u32, servers: u8) -> String {
         s.push_str("security:\n- apiKey: []\n- oauth:\n  - read\n  - write\n");
     }
     if on(F_TAGS) {
-        s.push_str("tags:\n- name: base-tag\n  description: a tag from the base\n  externalDocs:\n    url: https://example.com/tags\n- name: other\n");
+        s.push_str("tags:\n- name: base-tag\n  description: a tag from the base\n  externalDocs:\n    url: https://example.com/tags\n- name: Another\n");
     }
     if on(F_EXTDOCS) {
         s.push_str("externalDocs:\n  description: more\n  url: https://example.com/docs\n");
